@@ -334,6 +334,60 @@ func init() {
 			}
 		}
 		out.Data["listing_names"] = lineNames
+		// a registry of an embedding program: lints of every kind whose source is a listed one, a private one or not set at all
+		// (the public Register* functions accept all of them).  Exactly one line per lint whatever its source; lines are decoded
+		// leniently here (the source as text), the decoder's own refusal of an unlisted source is the first clause's business
+		{
+			reg := lint.VerifNewRegistry()
+			var want []string
+			srcs := []string{"Community", "RFC5280", "ACME_CPS", "", "cabf_br", "Unknown", "RFC6960"}
+			for i, sc := range srcs {
+				for _, k := range []string{"cert", "crl", "ocsp"} {
+					nm := fmt.Sprintf("n_verif_private_%s_%d", k, i)
+					spt := &Script{Name: nm, Desc: "private lint (verification harness)", Cite: "none", Src: sc, Cfg: "none", App: "false", Exe: "res", ExeStatus: 3}
+					lg := []int{}
+					var err error
+					switch k {
+					case "cert":
+						err = reg.RegisterCertificate(spt.certLint(&lg))
+					case "crl":
+						err = reg.RegisterRevocationList(spt.crlLint(&lg))
+					case "ocsp":
+						err = reg.RegisterOcspResponse(spt.ocspLint(&lg))
+					}
+					if err == nil {
+						want = append(want, nm)
+					}
+				}
+			}
+			var b bytes.Buffer
+			reg.Registry().WriteJSON(&b)
+			var got []string
+			for _, ln := range strings.Split(strings.TrimRight(b.String(), "\n"), "\n") {
+				if ln == "" {
+					continue
+				}
+				var m struct {
+					Name   string `json:"name"`
+					Source string `json:"source"`
+				}
+				if err := json.Unmarshal([]byte(ln), &m); err != nil {
+					out.Violate("C14|private-listing-line-undecodable", "a listing line of a registry with privately sourced lints is not a JSON object with a name: "+err.Error(), ln, nil, nil)
+					continue
+				}
+				got = append(got, m.Name)
+			}
+			sort.Strings(got)
+			sort.Strings(want)
+			if strings.Join(got, ",") != strings.Join(want, ",") {
+				out.Violate("C14|private-listing", fmt.Sprintf("a registry holding %d lints (sources %q) lists %d lines (first difference: %s)", len(want), srcs, len(got), firstDiffLine(strings.Join(want, "\n"), strings.Join(got, "\n"))),
+					map[string]interface{}{"sources": srcs}, len(want), len(got))
+			}
+			if len(want) != len(reg.Registry().Names()) {
+				out.Violate("C14|private-names", fmt.Sprintf("Names() of that registry has %d entries for %d registered lints", len(reg.Registry().Names()), len(want)), nil, len(want), len(reg.Registry().Names()))
+			}
+			out.Stats["private_registry_lints"] = len(want)
+		}
 		// the same for registries narrowed by a filter: every kind alone, every pair of kinds, every source, random options
 		{
 			var fspecs []FilterSpec
